@@ -257,6 +257,8 @@ fn sample_and_expire_batch(store: &Arc<FeoxStore>, config: &TtlConfig) -> (u64, 
         if ttl_expiry > 0 && ttl_expiry < now {
             #[cfg(test)]
             crate::test_hooks::pause_at(crate::test_hooks::TTL_AFTER_EXPIRED_SAMPLE);
+            #[cfg(feoxdb_verif)]
+            crate::verif::sched::point("sweep_sampled");
 
             let old_value_len = record.value_len;
             let record_size = record.calculate_size();
